@@ -1,6 +1,7 @@
 \* thorough: histories of <= 3 revisions over 3 objects (subsection styles do not matter without the offByOne tolerance: one style), bodies of <= 5 pieces
 SPECIFICATION Spec
 CONSTANTS OFFBYONE = FALSE
+  NULLZERO = FALSE
   Objs = {1, 2, 3}
   MaxRevs = 3
   Styles = {"runs"}
